@@ -69,6 +69,8 @@ struct Thread {
   uint32_t idle_pts = 0;   // consecutive points without shared write
   uint64_t ops_done = 0;
   int64_t watch_deadline = -1;
+  int64_t block_start = 0;
+  int64_t blocked_ns = 0;      // total virtual time spent blocked in timed/untimed waits and sleeps
   uint64_t watch_pts = 0;
   // memory model
   MVec<SbEntry> sb;
